@@ -860,7 +860,7 @@ class Variant(VariantBase):
         self._assert_value("type", VARIANT_TYPES)
 
     def _validate_arches(self):
-        self._assert_type("arches", [set, frozenset, list, tuple])
+        self._assert_type("arches", [set, frozenset])
         self._assert_not_blank("arches")
 
     def _validate_parent_arch(self):
